@@ -164,6 +164,7 @@ class KeyedList(Generic[ItemType, KeyType], MutableSequence, KeyedBase):  # pyli
             self._list[index_or_key] = item
             del self._dict[old_key]
             self._dict[key] = item
+            self._sync_key_order()
             return
 
         index = self.index_for_key(index_or_key)
@@ -194,11 +195,20 @@ class KeyedList(Generic[ItemType, KeyType], MutableSequence, KeyedBase):  # pyli
             )
         self._list.insert(index, item)
         self._dict[key] = item
+        if self._list[-1] is not item:
+            self._sync_key_order()
+
+    def _sync_key_order(self):
+        # `keys()` and `items()` are (ordered) views of the key index: keep it
+        # in list order whenever an operation changes positions.
+        keys = {id(item): key for key, item in self._dict.items()}
+        self._dict = {keys[id(item)]: item for item in self._list}
 
     def reverse(self):
         # The `MutableSequence` mixin swaps items pairwise through
         # `__setitem__`, which (rightly) rejects the transient duplicate key.
         self._list.reverse()
+        self._sync_key_order()
 
     def extend(self, values):
         # Validate every incoming item (type, key, uniqueness) before adding
